@@ -2145,26 +2145,23 @@ impl BytecodeVM {
         self.set_reg(register, value);
     }
 
-    /// Inject an exception into the VM for generator.throw()
-    /// This sets up the VM to handle the exception as if it was thrown at the current position.
-    /// Returns true if an exception handler was found, false if the exception should propagate.
+    /// Inject an exception into the VM (generator.throw(), an error response to an order, a
+    /// rejected promise that was awaited).
+    /// This sets up the VM to handle the exception as if it was thrown at the current position:
+    /// handlers of the current function first, then those of its callers on the trampoline
+    /// stack (an async caller turns the exception into a rejected promise).
+    /// Returns true if execution can continue, false if the exception should propagate.
     pub fn inject_exception(&mut self, interp: &mut Interpreter, exception: JsValue) -> bool {
         // Create guarded exception value
         let guarded = Guarded::from_value(exception, &interp.heap);
 
-        // Try to find an exception handler
-        if let Some((handler_ip, is_catch)) = self.find_exception_handler(interp) {
-            self.ip = handler_ip;
-            if is_catch {
-                self.exception_value = Some(guarded);
-            } else {
-                self.pending_completion = Some(PendingCompletion::Throw(guarded));
+        match self.handle_error_with_trampoline_unwind(interp, JsError::ThrownValue { guarded }) {
+            Ok(()) => true,
+            Err(error) => {
+                // No handler found - store exception for propagation
+                self.exception_value = Some(self.error_to_guarded(interp, error));
+                false
             }
-            true
-        } else {
-            // No handler found - store exception for propagation
-            self.exception_value = Some(guarded);
-            false
         }
     }
 
